@@ -844,6 +844,13 @@ func searchResult(d *dawg.Dawg, srch []dawg.Searcher) (string, error) {
 	for i := range ws {
 		fmt.Fprintf(&sb, "%q#%d ", ws[i], ids[i])
 	}
+	// the words and ranks returned belong to the caller: overwrite them (a later Search must not be affected)
+	for i := range ws {
+		for j := range ws[i] {
+			ws[i][j] = '#'
+		}
+		ids[i] = -1
+	}
 	return sb.String(), nil
 }
 
